@@ -214,7 +214,7 @@ func (c *Ctx) Solve(timeoutMs int, par int, crossCheck bool) {
 			if !crossCheck && !o.Vacuity {
 				// stage 0: without the quantified assumptions (weaker premises: an unsat answer
 				// is a proof; most obligations do not need them and the solvers are much faster)
-				r0 := runSolvers(c.query(o, false, true), min(4000, timeoutMs), false, solvers[:1])
+				r0 := runSolvers(c.query(o, false, true), min(6000, timeoutMs), false, solvers[:1])
 				if r0.status == "unsat" {
 					r = r0
 					r.solver += " (ground premises)"
@@ -297,7 +297,14 @@ func (c *Ctx) Solve(timeoutMs int, par int, crossCheck bool) {
 			continue
 		}
 		retries++
-		r := runSolvers(c.Query(o, true), 4*timeoutMs, false, solvers)
+		// the ground-premises form first (an unsat answer is a proof; the first pass gives it only
+		// four seconds, which a loaded machine can eat), then the full query
+		r := runSolvers(c.query(o, false, true), 2*timeoutMs, false, solvers)
+		if r.status == "unsat" {
+			r.solver += " (ground premises)"
+		} else {
+			r = runSolvers(c.Query(o, true), 4*timeoutMs, false, solvers)
+		}
 		if r.status == "unsat" || r.status == "sat" {
 			o.Status, o.Solver, o.Ms = r.status, r.solver+" (retry)", r.ms
 			o.Candidate = false
